@@ -219,20 +219,43 @@ def run(check):
   for h in sorted(helpers):
     m = fac.methods[h]
     g = cx.cfg(m)
-    for n in g.nodes:
-      if n.kind == 'test' and 'SEND_QUEUE_LOW_WATERMARK' in unparse(n.ast) and isinstance(n.ast, ast.Compare):
-        l = n.ast.left
-        fresh = (dotted(l) or '').endswith('queueSize') or (isinstance(l, ast.Call) and 'queue' in unparse(l))
-        if isinstance(l, ast.Name):
-          rds = reaching_defs(g, l.id, n)
-          fresh = all(d is not g.entry and isinstance(value_assigned(d, l.id), ast.AST) and
-                      ('queueSize' in unparse(value_assigned(d, l.id)) or 'len(' in unparse(value_assigned(d, l.id))) for d in rds) and bool(rds)
-          fresh = fresh and l.id not in m.params
-        if fresh and isinstance(n.ast.ops[0], (ast.Lt, ast.LtE)):
-          r_fr.ok('%s compares a size read inside the helper (after the shrink)' % h, m.loc(n.ast))
-        else:
-          r_fr.violate('watermark comparison', m, n.ast, '%s does not compare the live queue size `<` the low watermark (`%s`)'
-                       % (h, unparse(n.ast)))
+    # decided per path: whenever the helper fires queueHasSpace, a size read inside the helper was found below the watermark
+    from ..paths import PathExec as _PX
+    fires_ = nodes_calling(g, lambda c: isinstance(c.func, ast.Attribute) and c.func.attr == 'callback' and
+                           (dotted(c.func.value) or '').endswith('queueHasSpace'))
+    SELF_ = ('param', m.params[0])
+
+    def fresh_size(t):
+      return t == ('attr', SELF_, 'queueSize') or t == ('call', 'len', ('attr', SELF_, 'queue'))
+
+    def is_lw(t):
+      return t == ('param', 'SEND_QUEUE_LOW_WATERMARK') or (isinstance(t, tuple) and t[0] == 'attr' and t[-1] == 'SEND_QUEUE_LOW_WATERMARK')
+    pxh = _PX(cx, m, unroll=0, follow_exceptions=False)
+    okh, badh = 0, None
+    for hit in pxh.run(fires_):
+      below = False
+      stale = None
+      for pol, t, a, n in hit.conds:
+        if pol not in ('T', 'F') or not (isinstance(t, tuple) and t[0] == 'cmp'):
+          continue
+        op, l, r = t[1], t[2], t[3]
+        if is_lw(r) or is_lw(l):
+          size_t = l if is_lw(r) else r
+          lt = ((op in ('Lt', 'LtE') and pol == 'T') or (op in ('GtE', 'Gt') and pol == 'F')) if is_lw(r) else \
+               ((op in ('Gt', 'GtE') and pol == 'T') or (op in ('LtE', 'Lt') and pol == 'F'))
+          if lt and fresh_size(size_t):
+            below = True
+          elif lt:
+            stale = a
+      if below:
+        okh += 1
+      else:
+        badh = stale if stale is not None else hit.node.ast
+    if okh and badh is None:
+      r_fr.ok('%s compares a size read inside the helper (after the shrink) with the low watermark' % h, m.loc(fires_[0].ast))
+    elif fires_:
+      r_fr.violate('watermark comparison', m, badh, '%s does not compare the live queue size `<` the low watermark (`%s`)'
+                   % (h, short(badh) if badh is not None else '?'))
     # helper fires queueHasSpace
     fires = nodes_calling(g, lambda c: isinstance(c.func, ast.Attribute) and c.func.attr == 'callback' and
                           (dotted(c.func.value) or '').endswith('queueHasSpace'))
